@@ -112,7 +112,31 @@ def choice_optional_start_cases():
         yield ("choice-optional-start:repeated-%d" % i, {"main.xsd": CHOICE_OPT % 'maxOccurs="unbounded"'}, '<f:root xmlns:f="urn:fam">%s</f:root>' % body, None, None)
 
 
+CHOICE_NIL = ('<xs:schema xmlns:xs="http://www.w3.org/2001/XMLSchema" xmlns:t="urn:fam" targetNamespace="urn:fam" elementFormDefault="qualified">'
+              '<xs:element name="root" type="t:T1"/>'
+              '<xs:complexType name="T1"><xs:sequence><xs:element name="k" type="xs:string"/><xs:choice %s>'
+              '<xs:sequence><xs:element name="a" type="xs:string" nillable="true"/><xs:element name="b" type="xs:string"/></xs:sequence>'
+              '<xs:sequence><xs:element name="c" type="xs:int" nillable="true"/><xs:element name="d" type="xs:int" minOccurs="0"/></xs:sequence>'
+              '<xs:element name="z" type="xs:string"/></xs:choice></xs:sequence></xs:complexType></xs:schema>')
+
+
+def choice_nillable_cases():
+    """a choice whose sequence branches hold a required *nillable* member: the caller passes None for it (the key is present)
+    beside a sibling with a value -- the branch is chosen, the member goes out as xsi:nil, the sibling reads back"""
+    X = ' xmlns:xsi="%s"' % XSI
+    yield ("choice-nillable:branch1", {"main.xsd": CHOICE_NIL % ""},
+           '<f:root xmlns:f="urn:fam"%s><f:k>K</f:k><f:a xsi:nil="true"/><f:b>bee</f:b></f:root>' % X, dict(k="K", a=None, b="bee"), None)
+    yield ("choice-nillable:branch2", {"main.xsd": CHOICE_NIL % ""},
+           '<f:root xmlns:f="urn:fam"%s><f:k>K</f:k><f:c xsi:nil="true"/><f:d>0</f:d></f:root>' % X, dict(k="K", c=None, d=0), None)
+    yield ("choice-nillable:plain-branch", {"main.xsd": CHOICE_NIL % ""},
+           '<f:root xmlns:f="urn:fam"><f:k>K</f:k><f:a>ay</f:a><f:b>bee</f:b></f:root>', dict(k="K", a="ay", b="bee"), None)
+    yield ("choice-nillable:repeated", {"main.xsd": CHOICE_NIL % 'maxOccurs="unbounded"'},
+           '<f:root xmlns:f="urn:fam"%s><f:k>K</f:k><f:a xsi:nil="true"/><f:b>bee</f:b><f:z>zed</f:z><f:c>1</f:c></f:root>' % X,
+           dict(k="K", _value_1=[dict(a=None, b="bee"), dict(z="zed"), dict(c=1)]), None)
+
+
 def all_cases():
+    yield from choice_nillable_cases()
     yield from include_forms_cases()
     yield from restriction_cases()
     yield from choice_optional_start_cases()
@@ -145,7 +169,7 @@ def canon_value(v):
 
 def expected_value(value, typed):
     if isinstance(value, dict):
-        out = {k: expected_value(x, typed) for k, x in value.items() if k != "__type__"}
+        out = {k: expected_value(x, typed) for k, x in value.items() if k != "__type__" and x is not None}
         if typed and "__type__" in value:
             out["__type__"] = value["__type__"]
         return out
